@@ -368,9 +368,9 @@ def test_text_functions_and_flatten_value():
     eq(c11.fval_lists(c11.FVAL_INPUTS[3], "quick")[-1], [], "split of NULL flattens to nothing")
     for tier, n in (("quick", 7), ("thorough", 11)):
         eq(len(c11.fval_docs_for(tier)), 1 + n + n * n + (1 if tier == "quick" else 1), f"{tier} flatten-value rows")
-    h, pre, tail, val = c11._fval_stmt(c11.FVAL_INPUTS[1], c11.FVAL_VARIANTS[0], single=True)
+    h, pre, tail, val, _wj = c11._fval_stmt(c11.FVAL_INPUTS[1], c11.FVAL_VARIANTS[0], single=True)
     eq((h, pre, tail, val), ("", "t.id", " from (select * from jf) t, lateral flatten(input => t.w:a) f", "f.value"), "aliased statement")
-    h, pre, tail, val = c11._fval_stmt(c11.FVAL_INPUTS[3], c11.FVAL_VARIANTS[4], single=True)
+    h, pre, tail, val, _wj = c11._fval_stmt(c11.FVAL_INPUTS[3], c11.FVAL_VARIANTS[4], single=True)
     eq((h, pre, tail, val), ("with s as (select * from sf) ", "id", " from s, lateral flatten(input => split(s, ',')) ", "value"), "unaliased statement")
     # runs of adjacent NULL-valued pairs
     docs = c11.nullrun_docs("thorough")
@@ -434,9 +434,52 @@ def test_oracle_on_synthetic_observations():
     expect(c11._seq_ok("json", [1, "a"], ["1", '"a"']) and not c11._seq_ok("json", [1, "a"], ['"a"', "1"]) and not c11._seq_ok("json", [1], []), "flatten order / count")
 
 
+def test_consumers_and_sessions():
+    """hand-written expectations for the statements of the 'value consumed outside' and 'one session' layers"""
+    inp, xf, xb = c11.FVAL_INPUTS[0], c11.FVAL_EXPORTS[0], c11.FVAL_EXPORTS[1]
+    cons = {c[0]: c for c in c11.FVAL_CONSUMERS}
+    head, pre, tail, val, wj = c11._fvalx_stmt(inp, xf, cons["cte.name"], single=True)
+    eq((head, pre, tail, val, wj),
+       ("with items as (select t.id, f.value from (select * from jf) t, lateral flatten(input => t.v) f) ", "id", " from items", "items.value", " where "),
+       "CTE, qualified by its name")  # fmt: skip
+    head, pre, tail, val, wj = c11._fvalx_stmt(inp, xb, cons["cte.alias"], single=True)
+    eq((head, tail, val), ("with items as (select t.id, value from (select * from jf) t, lateral flatten(input => t.v)) ", " from items i", "i.value"), "CTE with an outer alias")
+    head, pre, tail, val, wj = c11._fvalx_stmt(inp, xf, cons["derived.alias"], "not x")
+    eq((head, tail, val), ("", " from (select t.id, f.value from (select * from jf where id in (select id from kk where not x)) t, lateral flatten(input => t.v) f) s", "s.value"), "derived table")
+    head, pre, tail, val, wj = c11._fvalx_stmt(inp, xf, cons["view.name"], "not x")
+    eq((tail, val, wj), (" from fvw_column_f where id in (select id from kk where not x)", "fvw_column_f.value", " and "), "view: rows are selected outside")
+    eq(c11.fval_view_sql(inp, xf), "create or replace view fvw_column_f as select t.id, f.value from jf t, lateral flatten(input => t.v) f", "view body")
+    eq(len(c11.fvalx_items("quick")), 4 * 2 * 8, "inputs x exports x consumers")
+    # every consumer kind with the unqualified and every qualified spelling
+    eq(sorted((c[1], c[3].format(n="N")) for c in c11.FVAL_CONSUMERS),
+       [("cte", "N.value"), ("cte", "i.value"), ("cte", "value"), ("derived", "s.value"), ("derived", "value"),
+        ("view", "N.value"), ("view", "i.value"), ("view", "value")], "consumer alphabet")  # fmt: skip
+    fams = {f[0]: f for f in c11.sess_families()}
+    f = fams["key1.colon.varchar"]
+    eq([(st[0], st[1], st[3]) for st in f[2]],
+       [("ab", "v:ab::varchar", "s1"), ("Ab", "v:Ab::varchar", "S2"), ("AB", "v:AB::varchar", "3"), ("aB", "v:aB::varchar", None)], "keys are case-sensitive")
+    f = fams["key2.getpath.raw"]
+    eq([(st[1], st[3]) for st in f[2]],
+       [("get_path(v, 'o.ab')", 4), ("get_path(v, 'o.Ab')", "s5"), ("get_path(v, 'o.AB')", [6]), ("get_path(v, 'o.aB')", M)], "depth 2")
+    f = fams["key1.bracket.where"]
+    eq([(st[4], st[3]) for st in f[2]],
+       [(" where v['ab']::varchar = 'S2'", 0), (" where v['Ab']::varchar = 'S2'", 1), (" where v['AB']::varchar = 'S2'", 0), (" where v['aB']::varchar = 'S2'", 0)], "WHERE: one variant hits")
+    f = fams["doc.dollar.varchar.k"]
+    eq([(st[1], st[3]) for st in f[2]],
+       [('parse_json($${"k":"abc","n":[1,2]}$$):k::varchar', "abc"), ('parse_json($${"k":"Abc","n":[1,2]}$$):k::varchar', "Abc"),
+        ('parse_json($${"k":"ABC","n":[1,2]}$$):k::varchar', "ABC"), ('parse_json($${"K":"abc","n":[1,2]}$$):k::varchar', None)], "document text is case-sensitive")  # fmt: skip
+    f = fams["cmp.c_eq"]
+    eq([(st[1], st[3]) for st in f[2]], [("v:ab::varchar = 's1'", True), ("v:ab::varchar = 'S1'", False)], "compared literal")
+    for fid, feats, stmts, _frm in c11.sess_families():
+        low = {(st[1] + (st[4] if len(st) > 4 else "")).lower() for st in stmts}
+        expect(len(low) == 1 and len({st[1] + (st[4] if len(st) > 4 else "") for st in stmts}) == len(stmts), f"{fid}: the statements differ in letter case only")
+    expect(c11.classify("C11.session", {"vary": "path-key.depth1", "fc": "p", "op": "raw", "pos": "later"}) == "vary=path-key.depth1,fc=p,pos=later", "session class key")
+
+
 if __name__ == "__main__":
     for t in (test_navigation, test_conversions, test_array_size_flatten_constructors_split, test_3vl, test_matches, test_ops_table,
-              test_generators, test_nested, test_text_functions_and_flatten_value, test_routes, test_oracle_on_synthetic_observations):  # fmt: skip
+              test_generators, test_nested, test_text_functions_and_flatten_value, test_routes, test_oracle_on_synthetic_observations,
+              test_consumers_and_sessions):  # fmt: skip
         print(t.__name__)
         t()
     print("FAILED" if FAILS else "ok", f"({len(FAILS)} failures)")
